@@ -29,7 +29,7 @@ def load_findings(pid: str | None = None) -> dict:
 
 
 def _write_replay(pid, job: Job, what: dict) -> str:
-    d = os.path.join(env.VERIF, "evidence", "replays")
+    d = os.path.join(evidence_dir(), "replays")
     os.makedirs(d, exist_ok=True)
     payload = {"property": pid, "job": {"module": job.module, "factory": job.factory,
                                         "kwargs": job.kwargs, "jid": job.jid}, **what}
@@ -39,6 +39,17 @@ def _write_replay(pid, job: Job, what: dict) -> str:
     with open(path, "w") as f:
         json.dump(payload, f, indent=1, sort_keys=True, default=repr)
     return path
+
+
+def evidence_dir():
+    """Evidence is only ever written for runs against /repo itself; scratch runs
+    (VERIF_REPO pointing at a worktree, or partial --only runs) go elsewhere."""
+    if os.path.realpath(env.REPO) != "/repo" or os.environ.get("VERIF_PARTIAL"):
+        d = os.environ.get("VERIF_SCRATCH_EVIDENCE", "/tmp/verif-scratch-evidence")
+    else:
+        d = os.path.join(env.VERIF, "evidence")
+    os.makedirs(d, exist_ok=True)
+    return d
 
 
 def run_property(pid: str, level: str, tier: str, jobs: list, meta: dict) -> int:
@@ -187,8 +198,7 @@ def run_property(pid: str, level: str, tier: str, jobs: list, meta: dict) -> int
     ev = {"property_id": pid, "tier": tier, "seed": env.SEED, "level": level, "coverage": cov,
           "assumptions": meta.get("assumptions", []) + ASSUME, "wall_s": round(wall, 2),
           "violations": len(violations)}
-    os.makedirs(os.path.join(env.VERIF, "evidence"), exist_ok=True)
-    with open(os.path.join(env.VERIF, "evidence", f"{pid}.json"), "w") as f:
+    with open(os.path.join(evidence_dir(), f"{pid}.json"), "w") as f:
         json.dump(ev, f, indent=1, sort_keys=True, default=repr)
     print(f"{pid} [{tier}] obligations={n_ob} discharged={n_ok} inconclusive={n_inc} candidates={n_cand} "
           f"reproduced={n_repro} sides={n_sides} side_failures={n_side_fail} declined={n_declined} "
